@@ -58,6 +58,20 @@ def generate(rng, tier):
                 s.meta[ln] = {"x": a, "cacheable": True}
                 if k2 == 2 and j % 2 == 1:
                     s.meta[ln]["must_hit"] = True
+        # calls that end in an error which does not depend on registers or stack (here: a PE image registered without
+        # its text bytes, first frame inside a function with a table entry) cache the fallback rule: the repeat is a hit
+        if arch == "x86":
+            pe_lo = 0x7ff600000000
+            module_pe(s, "MPN", pe_lo, pe_lo + 0x10000, pe_lo, 0x140000000, [(0x1000, 0x1080, 0)],
+                      {0: dict(fpreg=None, fpoff=0, ops=[(4, ("alloc", 40))], chain=None, prolog=4)}, 0x1000, None)
+            s.add("add R MPN"); s.add("newcache CP")
+            for j in range(4):
+                x = pe_lo + 0x1010 + 8 * j
+                regs = s.regs_x86(x, 0x7000, 0x7100)
+                l1 = s.add("unwind R CP ip %s %s S" % (hx(x), regs), tag="x86:repeat-pe-notext:first")
+                s.meta[l1] = {"x": x, "cacheable": True}
+                l2 = s.add("unwind R CP ip %s %s S" % (hx(x), regs), tag="x86:repeat-pe-notext:second")
+                s.meta[l2] = {"must_hit": True, "prev": l1, "x": x, "cacheable": True}
         s.add("stats CR"); s.add("stats CW"); s.add("stats C0")
         out.append((name, s))
     return out
